@@ -63,6 +63,8 @@ var modelledOps = map[string]bool{
 	// layer 2 (signals by name in messages and multiplexers)
 	"NewMuxSignal": true, "MsgAppendSignal": true, "MsgInsertSignal": true, "MsgRemoveSignal": true, "MsgRemoveAllSignals": true,
 	"SigUpdateName": true, "MuxInsertSignal": true, "MuxRemoveSignal": true, "MuxClearGroup": true, "MuxClearAll": true,
+	// Clone of an enum (with its values) and of an enum value are model operations (EnumClone / EvalClone)
+	"CloneEnum": true, "CloneEval": true,
 }
 
 // goName: the Go method an operation stands for (call site in signatures and messages)
